@@ -38,6 +38,7 @@ type LoopContract struct {
 	Key        string
 	Invariants []*Clause
 	Modifies   []*Clause
+	ExitDo     []*Clause // ghost updates applied when the loop is left through its header
 	Used       bool
 }
 
@@ -48,6 +49,7 @@ type FuncContract struct {
 	ParamNames []string // iface / extern: names for recv + params
 	Tags       []string
 	Requires   []*Clause
+	Assumes    []*Clause // data-structure invariants assumed at entry (listed as assumptions, not checked at call sites)
 	Ensures    []*Clause
 	EnsPanic   []*Clause
 	Modifies   []*Clause
@@ -58,6 +60,7 @@ type FuncContract struct {
 	Pure       bool
 	Inline     bool
 	NoPanic    bool
+	InlineCalls  []string          // callee keys evaluated in place when this function is verified
 	Shared       []string          // func: all keys sharing this contract
 	Abstract     string            // iface: implementations are not verified (assumed), with reason
 	SkipImpl     map[string]string // iface: implementations not verified (key -> reason), reported
@@ -561,12 +564,15 @@ func (cs *ContractSet) parseFile(file, pkgPath string) error {
 				switch word {
 				case "tags":
 					cur.Tags = append(cur.Tags, strings.Fields(strings.ReplaceAll(rest, ",", " "))...)
-				case "requires", "ensures", "ensures-on-panic", "let", "modifies", "cover":
+				case "requires", "ensures", "ensures-on-panic", "let", "modifies", "cover", "assumes":
 					c, err := mk(word, rest, l)
 					if err != nil {
 						return err
 					}
 					switch word {
+					case "assumes":
+						cur.Assumes = append(cur.Assumes, c)
+						cs.Scan["assumes"]++
 					case "requires":
 						cur.Requires = append(cur.Requires, c)
 					case "ensures":
@@ -611,7 +617,11 @@ func (cs *ContractSet) parseFile(file, pkgPath string) error {
 					if len(f) < 2 {
 						return fmt.Errorf("%s:%d: bad loop clause", l.file, l.line)
 					}
-					c, err := mk(f[0], strings.TrimSpace(f[1]), l)
+					kind := f[0]
+					if kind == "exit-do" {
+						kind = "do"
+					}
+					c, err := mk(kind, strings.TrimSpace(f[1]), l)
 					if err != nil {
 						return err
 					}
@@ -619,6 +629,8 @@ func (cs *ContractSet) parseFile(file, pkgPath string) error {
 						lc.Invariants = append(lc.Invariants, c)
 					} else if f[0] == "modifies" {
 						lc.Modifies = append(lc.Modifies, c)
+					} else if f[0] == "exit-do" {
+						lc.ExitDo = append(lc.ExitDo, c)
 					} else {
 						return fmt.Errorf("%s:%d: bad loop clause kind %s", l.file, l.line, f[0])
 					}
@@ -637,6 +649,8 @@ func (cs *ContractSet) parseFile(file, pkgPath string) error {
 					cur.Functional = true
 				case "inline":
 					cur.Inline = true
+				case "inline-call":
+					cur.InlineCalls = append(cur.InlineCalls, strings.Fields(rest)...)
 				case "abstract":
 					cur.Abstract = rest
 					if rest == "" {
